@@ -11,7 +11,7 @@ a new storage from sums over the partition (D).
 import ast
 import itertools
 
-from ..loader import AnalysisError, norm, walk_no_nested, call_name, const_value, protocol_body
+from ..loader import parents_map, AnalysisError, norm, walk_no_nested, call_name, const_value, protocol_body
 
 T2 = "quantarhei.spectroscopy.twod2"
 RES = ["off", "signals", "processes", "types", "pathways"]
@@ -41,6 +41,9 @@ def check(run, prog, tier):
     run.rule("C19-E", "the storage-resolution label changes only with the data it describes (who may write it, "
                       "under which guard)", minimum=3)
     m = prog.module(T2)
+    # (structural rule on the wrapper first: its finding stands when the wrapper can no longer be looked through)
+    run.rule("C19-M", "a refused addition leaves the response as it was: what the adding routine assigns before its refusals is put back when it fails", minimum=2)
+    rule_M(run, prog, m)
     tables = rule_A(run, prog, m)
     rule_B(run, prog, m)
     rule_C(run, prog, m)
@@ -236,7 +239,8 @@ def rule_E(run, prog, m):
     view (the total no longer contains what was added) and switches the refusals off.  The label may
     therefore be written only (i) in a constructor, (ii) by the first addition, under the guard
     'not self.storage_initialized', (iii) by the conversion loop, right after the elementary
-    conversion to that level."""
+    conversion to that level, (iv) by a roll-back: an except handler that puts back the label saved before the try and
+    raises again."""
     from ..loader import parents_map
     rid = "C19-E"
     n_sites = 0
@@ -276,8 +280,19 @@ def rule_E(run, prog, m):
                                     call_name(prev.value) == "_convert_res_elementary" and len(prev.value.args) == 2 and \
                                     isinstance(st, ast.Assign) and norm(st.value) == "_resolutions[%s]" % norm(prev.value.args[1]):
                                 conv = True
-                    ok = guarded or conv
-                    kind = "first addition" if guarded else ("conversion" if conv else "unguarded")
+                    # (iv) roll-back: inside an except handler that raises again, the label saved before the try is put back
+                    roll = False
+                    node = st
+                    while node is not None and node is not fn.node:
+                        par = pm.get(node)
+                        if isinstance(par, ast.ExceptHandler) and par.body and isinstance(par.body[-1], ast.Raise) and par.body[-1].exc is None \
+                                and isinstance(st, ast.Assign) and isinstance(st.value, ast.Name):
+                            roll = any(isinstance(a_, ast.Assign) and norm(a_.targets[0]) == st.value.id
+                                       and norm(a_.value) == "self.storage_resolution" and a_.lineno < par.lineno
+                                       for a_ in ast.walk(fn.node))
+                        node = par
+                    ok = guarded or conv or roll
+                    kind = "first addition" if guarded else ("conversion" if conv else ("roll-back" if roll else "unguarded"))
                 run.obligation(rid, fn.short, ok, key="label-write:" + norm(st)[:50],
                                message="%s relabels the storage (%s) outside a constructor, the first-addition guard "
                                        "'not self.storage_initialized' and the conversion loop: the stored cells are "
@@ -390,6 +405,68 @@ def rule_I2(run, prog, m):
                                "shape of the axes is broadcast into the stored one by the sum (the setter sees only the sum, which "
                                "fits) - the same array is refused when it is the first addition to the cell"
                                % (f.short, norm(st.value), par), loc=f.loc(st), sample={"store": norm(st)})
+
+
+def rule_M(run, prog, m):
+    """'Inadmissible operations are refused without changing the stored data.'  The adding routine prepares the storage on
+    the first addition (creates the dictionary, marks it initialised, takes the resolution named in the call) before it
+    looks at the addition; its refusals (unknown type for the resolution, missing or superfluous tag, resolution too high)
+    come later on the same paths.  Every attribute of self assigned before a refusal is therefore put back when the
+    routine fails: the wrapper calls it inside a try whose except handler restores each of them from a value saved
+    before the call and raises again.  Without it a refused first addition leaves the response at the resolution of the
+    refused call - additions that were admissible before are refused afterwards."""
+    from .c09 import _refusals_after_effects
+    rid = "C19-M"
+    base = prog.cls(T2 + ".TwoDSpectrumBase")
+    f, wrap = base.methods["_add_data_to_cell"], base.methods["_add_data"]
+    prog.consulted.add(f.relpath)
+    hits = _refusals_after_effects(f)
+    if len(hits) < 5:
+        raise AnalysisError("_add_data_to_cell: only %d refusals after the preparation of the storage (10 confirmed)" % len(hits))
+    # attributes assigned before any refusal, in the statement lists that enclose it
+    pm = parents_map(f.node)
+    early = set()
+    for _txt, _w, r in hits:
+        node = r
+        while node is not f.node and node is not None:
+            par = pm.get(node)
+            for fld in ("body", "orelse", "finalbody"):
+                b = getattr(par, fld, None)
+                if isinstance(b, list) and node in b:
+                    for st in b[:b.index(node)]:
+                        for x in ast.walk(st):
+                            if isinstance(x, ast.Assign):
+                                for t_ in x.targets:
+                                    if isinstance(t_, ast.Attribute) and norm(t_.value) == "self":
+                                        early.add(t_.attr)
+            node = par
+    early.discard("d__data")
+    if not early:
+        raise AnalysisError("_add_data_to_cell: no attribute is assigned before a refusal")
+    tries = [t_ for t_ in walk_no_nested(wrap.node) if isinstance(t_, ast.Try)
+             and any(isinstance(c, ast.Call) and norm(c.func) == "self._add_data_to_cell" for b_ in t_.body for c in ast.walk(b_))]
+    if len(tries) != 1:
+        raise AnalysisError("_add_data: the call of _add_data_to_cell is not inside one try statement")
+    tr = tries[0]
+    restored, reraises = set(), False
+    for h in tr.handlers:
+        if h.type is not None and norm(h.type) not in ("Exception", "BaseException"):
+            continue
+        reraises = reraises or any(isinstance(x, ast.Raise) and x.exc is None for x in ast.walk(h))
+        for x in ast.walk(h):
+            if isinstance(x, ast.Assign) and isinstance(x.value, ast.Name):
+                saved_before = any(isinstance(a_, ast.Assign) and norm(a_.targets[0]) == x.value.id and a_.lineno < tr.lineno
+                                   for a_ in walk_no_nested(wrap.node))
+                for t_ in x.targets:
+                    if isinstance(t_, ast.Attribute) and norm(t_.value) == "self" and saved_before:
+                        restored.add(t_.attr)
+    for a in sorted(early):
+        run.obligation(rid, wrap.short, a in restored and reraises, key="refusal-restores:" + a,
+                       message="_add_data_to_cell assigns self.%s before its refusals (%d of them follow on the same paths), and _add_data "
+                               "does not put it back when the addition is refused: a refused first addition leaves the response "
+                               "prepared for the refused call (its resolution, an initialised empty storage), and additions that "
+                               "were admissible before are refused afterwards" % (a, len(hits)), loc=wrap.loc(tr),
+                       sample={"assigned_before_refusals": sorted(early), "restored": sorted(restored)})
 
 
 def rule_J(run, prog, m):
